@@ -29,7 +29,7 @@ META = dict(
     functions=["NonnegMean.alpha_mart", "betting_mart", "kaplan_kolmogorov", "kaplan_markov", "kaplan_wald", "wald_sprt", "sjm",
                "fixed_alternative_mean", "shrink_trunc", "optimal_comparison", "fixed_bet", "agrapa", "welford_mean_var"],
     explanation=__doc__,
-    bounds={"quick": {"lemma layer": "n <= 3, N in {n, n+3, 50, inf} and symbolic N >= n (n <= 2), ut in plur/super/cmp10", "direct layer": "N = 2 continuous; N = 3 lattice populations {0, u/2, u} with u = 1, symbolic parameters and alpha (not kaplan_kolmogorov / optimal_comparison); IID laws on lattice atoms, n = 2, 3 draws"},
+    bounds={"quick": {"lemma layer": "n <= 3, N in {n, n+3, 50, inf} and symbolic N >= n (n <= 2), ut in plur/super/cmp10", "direct layer": "N = 2 continuous; N = 3 lattice populations {0, u/2, u} with u = 1, symbolic parameters and alpha (not kaplan_kolmogorov / optimal_comparison); IID laws on lattice atoms, n = 2, 3 draws (shrink_trunc / agrapa: thorough tier, n = 2)"},
             "thorough": {"lemma layer": "n <= 4, N grid + symbolic N (n <= 3), all ut", "direct layer": "N = 2 continuous, every ut (two draws: not shrink_trunc / optimal_comparison, whose queries stay undecided); lattice populations N = 3 with u in {1, 3/4} (not shrink_trunc), N = 4 for the fixed bet"}},
     outside=["histories longer than n", "floating-point rounding", "Ville's inequality and 'affine => E f(X) = f(E X)' (not mechanised)",
              "direct layer beyond N = 2 (continuous N = 3 was probed: most queries unknown)"],
@@ -99,7 +99,7 @@ def cells(tier):
         if m[2] in ("shrink_trunc", "agrapa") and tier == "quick":
             continue
         for law in IID_LAWS:
-            for n in ((2, 3) if tier != "quick" or m[2] not in ("shrink_trunc", "agrapa") else (2,)):
+            for n in ((2, 3) if m[2] not in ("shrink_trunc", "agrapa") else (2,)):      # (n = 3 for the variance rules: undecided at 540 s, not claimed)
                 fixed = {"d": 1, "f": 0} if m[2] == "shrink_trunc" else {}
                 out.append(dict(kind="iid", method=list(m), n=n, N="inf", ut="plur", ro=True, fixed=fixed, law=law))
     return out
